@@ -748,6 +748,30 @@ def run_r5(ctx, rule):
                     if v[0] == "c" and 1 <= v[1] <= 9:
                         keep.append(("Ge", v[1]))
         okk = bool(keep) and all((op == "Ge" and k >= 5) or (op == "Gt" and k >= 4) for op, k in keep)
+        if not okk:
+            # the same decided at the statements that shorten what will be written (`fields = rest`, `used -= 1`):
+            # each is dominated by a test that five or more remain (a slice pattern's own `len >= 1` is beside the point)
+            cwf = cfg(wf)
+            loops_w = cwf.loops()
+            shrinks = []
+            for bi, b in enumerate(wf.blocks):
+                if not any(bi in body for body in loops_w.values()):
+                    continue
+                for st in b["stmts"]:
+                    if st["k"] == "assign" and not st["lhs"]["p"] and st["lhs"]["l"] in sy.multi and st["lhs"]["l"] in wf.vars:
+                        shrinks.append(bi)
+            def five_remain(fa):
+                if fa[0] != "cmp":
+                    return False
+                op, a, b = fa[1], fa[2], fa[3]
+                if b[0] == "c" and a[0] != "c":
+                    return (op == "Ge" and b[1] >= 5) or (op == "Gt" and b[1] >= 4)
+                if a[0] == "c" and b[0] != "c":
+                    return (op == "Le" and a[1] >= 5) or (op == "Lt" and a[1] >= 4)
+                return False
+            if shrinks and all(guards.holds(wf, bi, five_remain) for bi in shrinks):
+                okk = True
+                keep = keep + [("shrink-guarded", len(shrinks))]
         rule.check(okk, "%s/header-min-fields" % mod, "%s: the writer drops trailing zero fields only while at least 5 remain (%s)" % (mod, keep), wf.loc())
         # the parser requires 5 fields before the first optional end of line
         first_opt = [bb for bb, t in pf.calls() if norm(util.cname(t)) == "flussab_aiger::token::required_newline_or_space"]
@@ -1064,12 +1088,37 @@ BACKWARD = ("split_last", "last", "next_back", "rposition", "rfind", "rev", "rsp
 FORWARD = ("next", "split_first", "first", "position", "find", "any", "all", "take_while", "skip_while", "find_map", "map_while", "strip_prefix", "index", "get", "get_unchecked")
 
 
-def _derivation_calls(fn, e, depth=0, seen=None):
-    """last path segments of the calls an expression's value is derived from (through named snapshots)"""
+def _derivation_calls(fn, e, depth=0, seen=None, stop=()):
+    """last path segments of the calls an expression's value is derived from (through named snapshots); what the
+    arguments of a call named in `stop` are derived from is not followed"""
     sy = sym(fn)
     seen = seen if seen is not None else set()
     out = set()
     if depth > 8 or not isinstance(e, tuple):
+        return out
+    if e and e[0] == "call" and norm(e[2]).rsplit("::", 1)[-1] in stop:
+        return {norm(e[2]).rsplit("::", 1)[-1]}
+    if stop and e and isinstance(e[0], str) and e[0] != "call":
+        for x in e[1:]:
+            if isinstance(x, tuple):
+                out |= _derivation_calls(fn, x, depth + 1, seen, stop)
+        if e[0] == "l" and e[1] not in seen:
+            seen.add(e[1])
+            for d in sy.defs.get(e[1], []):
+                if d[0] == "stmt":
+                    out |= _derivation_calls(fn, sy.rvalue(d[3]), depth + 1, seen, stop)
+                else:
+                    t = d[2]
+                    nm = norm(util.cname(t)).rsplit("::", 1)[-1]
+                    out.add(nm)
+                    if nm not in stop:
+                        for a in t["args"]:
+                            out |= _derivation_calls(fn, sy.operand(a), depth + 1, seen, stop)
+        return out
+    if stop and e and e[0] == "call":
+        out.add(norm(e[2]).rsplit("::", 1)[-1])
+        for a in e[3]:
+            out |= _derivation_calls(fn, a, depth + 1, seen, stop)
         return out
     for x in subexprs(e):
         if x[0] == "call":
@@ -1481,6 +1530,109 @@ def run_r14(ctx, rule):
     if len(wanted) < 4:
         rule.bad("placeholders/sites", "only %d kinds of placeholders found in the parser (3 constant kinds and the justice conditions counted)" % len(wanted), kind="anchor-missing")
 
+# ---- R16: two numbers are never written back to back ---------------------------------------------------------
+def run_r16(ctx, rule):
+    """Text writers emit numbers (`ascii_digits`) and constant byte strings.  If two numbers -- or a number and a
+    constant piece that starts with a digit or a minus sign, like the terminating `0` -- can follow each other
+    without a separating byte on some path (also around a loop), the text reads back as one longer number.
+    Decided by a forward dataflow over each writer function: state = does the text written so far end in a digit."""
+    facts = ctx.facts
+    n = 0
+
+    def is_text_writer(nid):
+        if nid.startswith("flussab_cnf::") and nid.rsplit("::", 1)[-1] in ("write_clause", "write_header"):
+            return True
+        if nid.startswith("flussab_aiger::ascii::Writer::"):
+            return True
+        if nid.startswith("flussab_btor2::btor2::") and "write" in nid.rsplit("::", 1)[-1]:
+            return True
+        return False
+
+    for f in sorted(facts.fns.values(), key=lambda x: x.id):
+        nid = norm(f.id)
+        if f.kind == "Closure" or f.crate in ("ext", "promoted") or not is_text_writer(nid):
+            continue
+        sy = sym(f)
+        c = cfg(f)
+        ev = {}
+        for bb, t in f.calls():
+            cn = norm(util.cname(t))
+            if cn.endswith("write::text::ascii_digits"):
+                ev[bb] = ("D",)
+            elif cn.endswith("DeferredWriter::write_all_defer_err") and len(t["args"]) > 1:
+                e = sy.operand(t["args"][1])
+                while e[0] == "cast":
+                    e = e[2]
+                if e[0] == "cb":
+                    if e[1]:
+                        ev[bb] = ("S", e[1])
+                else:
+                    ev[bb] = ("T",)
+            elif cn.startswith(("flussab_aiger::", "flussab_btor2::", "flussab_cnf::")) and "write" in cn.rsplit("::", 1)[-1]:
+                ev[bb] = ("T",)
+        if not any(v[0] == "D" for v in ev.values()):
+            continue
+        n += 1
+        # state at block entry: set of {"digit", "other"}
+        inn = {0: {"other"}}
+        work = [0]
+        bad = None
+        while work:
+            b = work.pop()
+            out = set()
+            for st in inn[b]:
+                e = ev.get(b)
+                if e is None:
+                    out.add(st)
+                elif e[0] == "D":
+                    if st == "digit" and bad is None:
+                        bad = (b, "a number is written directly behind a digit")
+                    out.add("digit")
+                elif e[0] == "S":
+                    first, last = e[1][0], e[1][-1]
+                    if st == "digit" and (48 <= first <= 57 or first == 45) and bad is None:
+                        bad = (b, "the constant %r is written directly behind a number" % e[1])
+                    out.add("digit" if 48 <= last <= 57 else "other")
+                else:
+                    out.add("other")
+            for nx in c.succ[b]:
+                old = inn.get(nx, set())
+                if not out <= old:
+                    inn[nx] = old | out
+                    work.append(nx)
+        rule.check(bad is None, "%s/numbers-separated" % nid, "%s never writes two numbers (or a number and a constant starting with a digit) back to back%s" % (short(nid), "" if bad is None else ": " + bad[1]), f.loc(bad[0]) if bad else f.loc())
+    if n < 6:
+        rule.bad("text-writers/sites", "only %d text writers that emit numbers found (at least 6 counted)" % n, kind="anchor-missing")
+
+# ---- R17: the header read is the header handed out ---------------------------------------------------------------
+def run_r17(ctx, rule):
+    """`Parser::header()` hands out what `parse_header` read; `ignore_header` only says that its counts are not
+    enforced.  Decided in the three DIMACS `Parser::new`: the value stored into the `header` field is the result of
+    `parse_header` (through `?` only -- no filter or other combinator in between), and the store does not depend on
+    the configuration."""
+    facts = ctx.facts
+    n = 0
+    for mod in ("cnf", "wcnf", "gcnf"):
+        fs = [g for i, g in facts.fns.items() if norm(i) == "flussab_cnf::%s::Parser::new" % mod]
+        if not fs:
+            rule.bad("%s/new-anchor" % mod, "anchor missing: %s::Parser::new" % mod, kind="anchor-missing")
+            continue
+        f = fs[0]
+        sy = sym(f)
+        stores = [(bi, si) for ff, bi, si, name in util.field_stores(facts, "flussab_cnf::%s::Parser" % mod) if ff is f and name == "header" and si is not None]
+        stores = [(bi, si) for bi, si in stores if not (f.blocks[bi]["stmts"][si]["rv"]["k"] == "agg" and f.blocks[bi]["stmts"][si]["rv"].get("variant") == "None")]
+        if not stores:
+            rule.bad("%s/header-store" % mod, "%s::Parser::new never stores the parsed header" % mod, f.loc(), kind="anchor-missing")
+            continue
+        for bi, si in stores:
+            n += 1
+            e = sy.rvalue(f.blocks[bi]["stmts"][si]["rv"])
+            via = _derivation_calls(f, e, stop=("parse_header",)) - {"branch", "parse_header", "from_residual"}
+            cond = [guards.show_fact(f, fa)[:50] for _s, fa in guards.facts_at(f, bi) if mentions(fa, lambda x: isinstance(x, tuple) and x and x[0] == "f" and x[2] == "ignore_header")]
+            rule.check(not via and not cond, "%s/header-stored-as-read" % mod, "%s::Parser::new stores the header as parse_header returned it, whatever the configuration%s%s" % (mod, "" if not via else " -- but through %s" % sorted(via), "" if not cond else " -- but only under %s" % cond[0]), f.loc(bi))
+    if n < 3:
+        rule.bad("header-store/sites", "fewer than 3 header stores found (cnf, wcnf, gcnf counted)", kind="anchor-missing")
+
 
 def run(ctx):
     r1 = ctx.rule("C03-R1", "BTOR2 keywords: writer and reader tables are the same bijection and cover every variant", floor=130)
@@ -1493,6 +1645,10 @@ def run(ctx):
     run_r4(ctx, r4)
     r4b = ctx.rule("C03-R4b", "binary varint: continuation-bit protocol (writer's last group < 0x80, all bits emitted, same shift and masks as the reader)", floor=5)
     run_r4b(ctx, r4b)
+    r17 = ctx.rule("C03-R17", "the DIMACS parsers hand out the header as it was read, whatever the configuration", floor=3)
+    run_r17(ctx, r17)
+    r16 = ctx.rule("C03-R16", "text writers never emit two numbers (or a number and a constant starting with a digit) back to back", floor=6)
+    run_r16(ctx, r16)
     # R15: what a line's placeholders are pointed at is that line's text only if the per-line buffers were emptied for
     # the line: the reset discipline of C10-R1, run here too
     from .c10 import run_r1 as c10_r1
